@@ -9,7 +9,7 @@ Template syntax (units/*.vrs) -- plain Verus text plus directive lines:
   //@@ assume <text>               an assumption / trusted contract listed in every evidence file
   //@@ extract <label>             start of an extraction block
   //@ file <repo-relative path>
-  //@ item <seg> :: <seg>          e.g.  impl Wal :: fn replay     |   fn matches_phrase :: fn search
+  //@ item <seg> :: <seg>          e.g.  impl Wal :: fn replay     |   fn matches_phrase :: fn search ; `A || B` = first that exists
   //@ raw                          copy the item verbatim (struct/enum/const), only `rewrite`s apply
   //@ slice /re-first/ .. /re-last/   statement slice (lines matched inside the fn body, each exactly once; `$` = end of body)
   //@ slice-after /re/ .. /re-last/   as slice, but starting after the statement that begins on the anchored line
@@ -368,7 +368,18 @@ def expand_block(blk, gen, unit_id):
         raise ExtractError('lost anchor: file %s missing' % blk.file)
     rf = RustFile(path)
     gen.repo_files.add(blk.file)
-    it = rf.find_item(blk.item)
+    # `A || B`: the first of the alternatives that exists (a function that was split or renamed by a repair: the contract
+    # follows the code to its new place, and still finds it on a tree where the repair is reverted)
+    it = None
+    alts = [a.strip() for a in blk.item.split(' || ')]
+    for k, alt in enumerate(alts):
+        try:
+            it = rf.find_item(alt)
+            blk.item = alt
+            break
+        except ExtractError:
+            if k == len(alts) - 1:
+                raise
     item_text = rf.text[it['start']:it['end']]
     sha = hashlib.sha256(item_text.encode()).hexdigest()
     first_line = line_of(rf.text, it['start'])
